@@ -22,6 +22,8 @@ import RV.Lemmas.ClosedLoopTrafficRoll
 import RV.Lemmas.ClosedLoopTrafficFin
 import RV.Lemmas.ClosedLoopTrafficRoute
 import RV.Lemmas.ClosedLoopTrafficReset
+import RV.Lemmas.ClosedLoopTrafficExact
+import RV.Lemmas.ClosedLoopTrafficLive
 import RV.Lemmas.ClosedLoopMono
 import RV.Model.ClosedLoopRb
 namespace RV.Props.ClosedLoopTraffic
@@ -502,6 +504,15 @@ theorem loop_route_after_ready_partial (s0 s : CS) (ls : List Label) (t : TGhost
     simp only [Bool.and_eq_true, List.all_eq_true, decide_eq_true_eq] at hseen
     exact hseen.1.1 j hj
 
+/-- **C03 (second sentence; closed loop, every history)** — whenever a Rollout reconcile reports a step that configures a
+    weight as routed (`StepTrafficRouting` → a later sub-state of the same step), the canary Ingress carries exactly that
+    step's weight (no Ingress at all only for weight 0 when there was none), the canary Service selects the released pod-template
+    hash and the stable Service is pinned to the stable revision (`routedExact`; `RV.Props.Traffic.done_means_routed` lifted to the
+    histories of the closed loop: the `routed` flag of the ghost is only ever set in such a state).  (partial: label set) -/
+theorem loop_routed_exact_partial (s0 s s' : CS) (ls : List Label) (h0 : InitT s0) (hr : Reach s0 ls s)
+    (hs : step s .ro = some s') : routedExact s s' = true :=
+  routed_exact_step s s' (loop_tr_inv_partial s0 s ls h0 hr) hs
+
 /-! ### 4. `loop_rollback_routes_first` (C10): supersession and rollback put traffic back on stable first
 
 **Supersession** is proved over histories: any forward history, then a superseding release (`supersedeOK`: the regions of the
@@ -603,6 +614,43 @@ theorem loop_rollback_noticed_frame (s s' : CS) (w : CWl) (sub : Sub) (hgone : s
     have hbr' : r.w.br = s.br.map roBr := hbr
     rw [hbr', landBR_id]
 
+/-- 10 replicas, plan 20 % (traffic 20 %, manual pause) / 50 % (traffic 50 %) -/
+def exT0 : CS := { exS0 with ro := { exRo with steps := [⟨.pct 20, some 20, .manual⟩, ⟨.pct 50, some 50, .short⟩] } }
+
+/-! ### 6. progress with traffic routing (C07)
+
+Full statement (NOT proved; kept as the target): *`loop_terminates_traffic` — from a settled idle state with traffic routing
+configured (`hasTraffic = true`, any mix of weighted and un-weighted steps) and one release, the fair schedule
+`[ro, br, env, approve, tick]` reaches the clean terminal state (`RV.Oracle.ClosedLoop.terminalOK`) within `c·(#steps + 1)` rounds
+and stays there.*  `RV.Props.ClosedLoop.loop_terminates_partial` proves it for `hasTraffic = false` with the measure `mu` over 27
+round-boundary classes.  What is proved here is the step that is new with traffic routing, from EVERY state of the invariant
+(not only round boundaries, any grace memory, any interleaving before): `StepTrafficRouting` — rank 8 of `mu`, above
+`StepMetricsAnalysis` — is left within 7 fair rounds, for weighted steps (`doTrafficRouting`: Services, Ingress at 0, weight,
+verification) and un-weighted ones (`finalisingTrafficRouting`: un-pin, withdraw, remove) alike.  Missing for the full statement:
+the round-boundary classes of `BeforeStepUpgrade` with its Manager calls (`restoreStableService` / `patchStableService` under a
+grace period: up to 2 extra rounds), the pre-step clean-up of un-weighted steps in the other sub-states, and the three network
+tasks of the final clean-up under a grace period (`finalising_converges`); on the real controllers these are judged by the
+oracles `C07.loop_terminates` (≤ 20·(#steps + 4) rounds) and `C07.loop_measure_decreases` (K = 5) on every fair healthy walk,
+which now include the traffic scenarios. -/
+
+/-- **C07 (closed loop, every history, then the fair schedule)** — from every reachable state in which the rollout is in
+    `StepTrafficRouting` of step `k` (stable revision and update revision known), at most 7 fair rounds
+    `[ro, br, env, approve, tick]` later — every round is defined: no reconciler panics — the rollout is still on step `k`, past
+    `StepTrafficRouting`, and the traffic invariant holds: traffic routing never stalls and never oscillates inside the loop.
+    (partial: this is one of the progress classes; see the section header for what the full termination statement still needs) -/
+theorem loop_routing_converges_partial (s0 s : CS) (ls : List Label) (h0 : InitT s0) (hr : Reach s0 ls s) (w : CWl) (sub : Sub)
+    (hw : s.wl = some w) (hph : s.ro.phase = .progressing) (hre : s.ro.reason = .inRolling) (hsub : s.ro.sub = some sub)
+    (hst : sub.state = .trafficRouting) (hsr : sub.stableRev ≠ "") (hur : w.updateRevision ≠ "") :
+    ∃ k s', k ≤ 7 ∧ rounds k s = some s' ∧ trInv s' = true ∧ s'.ro.phase = .progressing ∧ s'.ro.reason = .inRolling ∧
+      ∃ sub', s'.ro.sub = some sub' ∧ sub'.curIdx = sub.curIdx ∧ routedState sub'.state = true :=
+  routing_converges s w sub (loop_tr_inv_partial s0 s ls h0 hr) hw hph hre hsub hst hsr hur
+
+/-- test: `exT0`, 10 rounds after the release the rollout is in `StepTrafficRouting` of step 1 with no route written yet; 4 fair rounds
+    later the step is routed -/
+example : (legalRun exT0 (.release "v2" :: (List.replicate 10 exRound).flatten)).map (fun s =>
+      (s.ro.sub.map (·.state), s.net.canaryIng, (rounds 4 s).map (fun t => (t.ro.sub.map (·.state), t.net.canaryIng)))) =
+    some (some .trafficRouting, none, some (some .metricsAnalysis, some 20)) := by decide +kernel
+
 /-! ### known finding `abandonedCleanup` (C05 / C04 / C10) — why `loop_terminal_clean` is `_partial`
 
 The clean-up cursor `status.canaryStatus.finalisingStep` is shared by four task lists: the reset of a superseded release
@@ -613,9 +661,6 @@ the previous one left and skips every task before it; and the reconcile that not
 branch once more (a reset then deletes the BatchRelease the exit clean-up would have resumed).  Both witnesses below are replayed
 on the real controllers on every run (corpus `closedloop/finding-abandonedCleanup.jsonl`); candidate repair:
 `fixes/cltraffic-stale-cursor.patch`. -/
-
-/-- 10 replicas, plan 20 % (traffic 20 %, manual pause) / 50 % (traffic 50 %) -/
-def exT0 : CS := { exS0 with ro := { exRo with steps := [⟨.pct 20, some 20, .manual⟩, ⟨.pct 50, some 50, .short⟩] } }
 
 /-- `v2` is released up to step 1 (20 % routed); the user pushes `v3`, the Rollout controller starts the reset (route withdrawn,
     BatchRelease deleted, cursor `ReleaseWorkloadControl`); the user returns to `v2`; fair rounds to the end -/
